@@ -226,14 +226,14 @@ PROPS = {
         "abstract interpretation over the sign domain for BigInt results",
     },
     "C08": {
-        "clauses": [r5check.check_conversions, r5check.check_tryfrom_err_carries_input, r5check.check_float_guard, r9.check_float_reads_every_digit, _conv_narrowing, count_ok("biguint/convert.rs", "bigint/convert.rs", floor=100), selftest("R2-count-narrowed"), _conv_intermediate, _conv_signed_cast],
+        "clauses": [r5check.check_conversions, r5check.check_tryfrom_err_carries_input, r5check.check_float_guard, r9.check_float_reads_every_digit, r9.check_float_position_tracking, _conv_narrowing, count_ok("biguint/convert.rs", "bigint/convert.rs", floor=100), selftest("R2-count-narrowed"), _conv_intermediate, _conv_signed_cast],
         "not_decided": "digit accumulation / overflow position in BigUint::to_uN, high_bits_to_u64 and float rounding (ties-to-even, infinity cut-off), from_f64's shift arithmetic, two's-complement magnitude arithmetic of From<iN>",
         "level_text": "Decides the sign-gate and ownership clauses for every input: BigInt::to_{i64,i128,u64,u128} return Some(a) exactly when a fits, including the MIN edge "
         "(|a| compared with 2^63 / 2^127 read from MIR), negative -> None for unsigned targets, zero -> Some(0); BigUint::from_iN rejects negatives; "
         "TryFrom<BigInt> for BigUint and all 24 by-value TryFrom impls for primitives hand the original value back in the error; BigUint::from_f64 rejects "
         "NaN/infinities before decoding and negative values after; no conversion casts its primitive input to a narrower integer type or through a saturating "
         "float cast; no conversion to a primitive T goes through to_X() for an X that cannot hold every value of T; no bit count is truncated before it is "
-        "range-checked. Also: the digit loop of to_f64/to_f32 (helpers inlined) leaves before the last digit only on a condition computed from the digits read - an exit decided by position alone would make the unread digits unable to set the round-to-odd bit.",
+        "range-checked. Also: the digit position of to_f64/to_f32 advances by the width computed for the digit, so every later digit is a full digit for the round-to-odd test (the rule written for defect D7, fixed by d1a75b0); the digit loop (helpers inlined) leaves before the last digit only on a condition computed from the digits read - an exit decided by position alone would make the unread digits unable to set the round-to-odd bit.",
         "technique": "abstract interpretation over the sign domain (R5) + MIR def-use checks of the error closures + guard dominance; loop-exit forward taint over the float conversion's digit loop (read set); ordering-test requirement for unsigned-to-signed casts",
     },
     "C09": {
